@@ -19,6 +19,8 @@
 (*  OutFd(f,s,th) Out(id,s,th)   received by the application's sink s      *)
 (*  Dead(p,th) MgrFree(th)   end of life of the pipes / transfer manager   *)
 (*  Touch(what) DoubleFree   a hooked access into freed memory / 2nd free  *)
+(*  Join(th)                 pthread stage: the worker thread has ended and was  *)
+(*                           joined (by the application's loop)                 *)
 (*  Quiescent(live)          nobody runnable; live = blocks allocated by   *)
 (*                           the code under test and not freed             *)
 (*                                                                         *)
@@ -43,9 +45,9 @@ Tr == ndJsonDeserialize(IOEnv.TRACE)
 VARIABLES l, fl, mx, ta, tw, transferred, holder, insTh, insDepth,
           curFd, sentFd, pendIn, rFd, rOutFd, emFd, pendOut, curSink, sinkFd,
           pendEv, released, remoteFreed, handleDead, mgrFreed, deadIn, deadOut,
-          ctl, appFrz, skip, cur, bad
+          ctl, appFrz, joined, skip, cur, bad
 st == <<fl, mx, ta, tw, transferred, holder, insTh, insDepth, curFd, sentFd, pendIn, rFd, rOutFd, emFd,
-        pendOut, curSink, sinkFd, pendEv, released, remoteFreed, handleDead, mgrFreed, deadIn, deadOut, ctl, appFrz>>
+        pendOut, curSink, sinkFd, pendEv, released, remoteFreed, handleDead, mgrFreed, deadIn, deadOut, ctl, appFrz, joined>>
 vars == <<l, st, skip, cur, bad>>
 None == "none"
 
@@ -72,7 +74,9 @@ REnterGuard(ev) ==
       [] ev.k = "getout" -> TRUE
       [] OTHER -> ev.th = tw \/ holder = ta       \* attach, setout, request: commands sent through the transfer manager
 
-Guard(ev) ==
+\* a thread that has been joined does nothing any more (pthread stage: the worker thread of
+\* upipe_pthread_xfer_mgr_alloc is joined by the application's loop once it has ended)
+Guard0(ev) ==
   CASE ev.e \in {"Alloc", "Transferred", "Disp", "EndScript", "WBlocked", "SetFdFail", "SetOutRet"} -> TRUE
     [] ev.e \in {"SetFd", "Send", "SetOut", "Freeze", "Thaw", "Release"} -> ~released
     [] ev.e = "Ctl" -> ~released /\ ctl = -1
@@ -98,6 +102,9 @@ Guard(ev) ==
                           [] ev.p = "out_qsink" -> ev.th = tw /\ ~deadOut
                           [] OTHER -> FALSE
     [] ev.e = "MgrFree" -> ev.th = tw /\ ~mgrFreed
+    \* the worker thread ends only after its loop has nothing left to watch: the transfer manager is gone,
+    \* nobody is inside the remote pipe, the mutex is not left locked by the dead thread
+    [] ev.e = "Join" -> ev.th = ta /\ ~joined /\ mgrFreed /\ insTh = -1 /\ holder # tw
     \* HoldNotDrop + FreedOnce (an application that froze the worker for ever is not judged)
     [] ev.e = "Quiescent" -> \/ holder = ta /\ appFrz
                              \/ /\ holder = -1
@@ -106,46 +113,50 @@ Guard(ev) ==
                                 /\ released => /\ remoteFreed /\ handleDead /\ mgrFreed
                                                /\ (HasIn => deadIn) /\ (HasOut => deadOut)
                                                /\ ev.live = 0
+                                               /\ (Has(ev, "thread") => joined)
     [] OTHER -> FALSE       \* Touch, DoubleFree, Fatal, Crash, Hang, LockBusy, Untransferred
+
+Guard(ev) == ((Has(ev, "th") /\ ev.th = tw) => ~joined) /\ Guard0(ev)
 
 U(vs) == UNCHANGED vs
 Effect(ev) ==
-  CASE ev.e = "Transferred" -> transferred' = TRUE /\ U(<<fl, mx, ta, tw, holder, insTh, insDepth, curFd, sentFd, pendIn, rFd, rOutFd, emFd, pendOut, curSink, sinkFd, pendEv, released, remoteFreed, handleDead, mgrFreed, deadIn, deadOut, ctl, appFrz>>)
-    [] ev.e = "SetFd" -> curFd' = ev.f /\ U(<<fl, mx, ta, tw, transferred, holder, insTh, insDepth, sentFd, pendIn, rFd, rOutFd, emFd, pendOut, curSink, sinkFd, pendEv, released, remoteFreed, handleDead, mgrFreed, deadIn, deadOut, ctl, appFrz>>)
+  CASE ev.e = "Transferred" -> transferred' = TRUE /\ U(<<joined, fl, mx, ta, tw, holder, insTh, insDepth, curFd, sentFd, pendIn, rFd, rOutFd, emFd, pendOut, curSink, sinkFd, pendEv, released, remoteFreed, handleDead, mgrFreed, deadIn, deadOut, ctl, appFrz>>)
+    [] ev.e = "SetFd" -> curFd' = ev.f /\ U(<<joined, fl, mx, ta, tw, transferred, holder, insTh, insDepth, sentFd, pendIn, rFd, rOutFd, emFd, pendOut, curSink, sinkFd, pendEv, released, remoteFreed, handleDead, mgrFreed, deadIn, deadOut, ctl, appFrz>>)
     [] ev.e = "Send" -> sentFd' = Upd(sentFd, ev.id, curFd) /\ pendIn' = Append(pendIn, ev.id)
-                        /\ U(<<fl, mx, ta, tw, transferred, holder, insTh, insDepth, curFd, rFd, rOutFd, emFd, pendOut, curSink, sinkFd, pendEv, released, remoteFreed, handleDead, mgrFreed, deadIn, deadOut, ctl, appFrz>>)
+                        /\ U(<<joined, fl, mx, ta, tw, transferred, holder, insTh, insDepth, curFd, rFd, rOutFd, emFd, pendOut, curSink, sinkFd, pendEv, released, remoteFreed, handleDead, mgrFreed, deadIn, deadOut, ctl, appFrz>>)
     \* a new output must be told the flow definition again before it gets a buffer
     [] ev.e = "SetOut" -> curSink' = ev.s /\ sinkFd' = [sinkFd EXCEPT ![ev.s] = None]
-                          /\ U(<<fl, mx, ta, tw, transferred, holder, insTh, insDepth, curFd, sentFd, pendIn, rFd, rOutFd, emFd, pendOut, pendEv, released, remoteFreed, handleDead, mgrFreed, deadIn, deadOut, ctl, appFrz>>)
-    [] ev.e = "Release" -> released' = TRUE /\ U(<<fl, mx, ta, tw, transferred, holder, insTh, insDepth, curFd, sentFd, pendIn, rFd, rOutFd, emFd, pendOut, curSink, sinkFd, pendEv, remoteFreed, handleDead, mgrFreed, deadIn, deadOut, ctl, appFrz>>)
-    [] ev.e = "Ctl" -> ctl' = 0 /\ U(<<fl, mx, ta, tw, transferred, holder, insTh, insDepth, curFd, sentFd, pendIn, rFd, rOutFd, emFd, pendOut, curSink, sinkFd, pendEv, released, remoteFreed, handleDead, mgrFreed, deadIn, deadOut, appFrz>>)
-    [] ev.e = "CtlRet" -> ctl' = -1 /\ U(<<fl, mx, ta, tw, transferred, holder, insTh, insDepth, curFd, sentFd, pendIn, rFd, rOutFd, emFd, pendOut, curSink, sinkFd, pendEv, released, remoteFreed, handleDead, mgrFreed, deadIn, deadOut, appFrz>>)
-    [] ev.e = "FreezeRet" -> appFrz' = ev.ok /\ U(<<fl, mx, ta, tw, transferred, holder, insTh, insDepth, curFd, sentFd, pendIn, rFd, rOutFd, emFd, pendOut, curSink, sinkFd, pendEv, released, remoteFreed, handleDead, mgrFreed, deadIn, deadOut, ctl>>)
-    [] ev.e = "Thaw" -> appFrz' = FALSE /\ U(<<fl, mx, ta, tw, transferred, holder, insTh, insDepth, curFd, sentFd, pendIn, rFd, rOutFd, emFd, pendOut, curSink, sinkFd, pendEv, released, remoteFreed, handleDead, mgrFreed, deadIn, deadOut, ctl>>)
-    [] ev.e = "Lock" -> holder' = ev.th /\ U(<<fl, mx, ta, tw, transferred, insTh, insDepth, curFd, sentFd, pendIn, rFd, rOutFd, emFd, pendOut, curSink, sinkFd, pendEv, released, remoteFreed, handleDead, mgrFreed, deadIn, deadOut, ctl, appFrz>>)
-    [] ev.e = "Unlock" -> holder' = -1 /\ U(<<fl, mx, ta, tw, transferred, insTh, insDepth, curFd, sentFd, pendIn, rFd, rOutFd, emFd, pendOut, curSink, sinkFd, pendEv, released, remoteFreed, handleDead, mgrFreed, deadIn, deadOut, ctl, appFrz>>)
+                          /\ U(<<joined, fl, mx, ta, tw, transferred, holder, insTh, insDepth, curFd, sentFd, pendIn, rFd, rOutFd, emFd, pendOut, pendEv, released, remoteFreed, handleDead, mgrFreed, deadIn, deadOut, ctl, appFrz>>)
+    [] ev.e = "Release" -> released' = TRUE /\ U(<<joined, fl, mx, ta, tw, transferred, holder, insTh, insDepth, curFd, sentFd, pendIn, rFd, rOutFd, emFd, pendOut, curSink, sinkFd, pendEv, remoteFreed, handleDead, mgrFreed, deadIn, deadOut, ctl, appFrz>>)
+    [] ev.e = "Ctl" -> ctl' = 0 /\ U(<<joined, fl, mx, ta, tw, transferred, holder, insTh, insDepth, curFd, sentFd, pendIn, rFd, rOutFd, emFd, pendOut, curSink, sinkFd, pendEv, released, remoteFreed, handleDead, mgrFreed, deadIn, deadOut, appFrz>>)
+    [] ev.e = "CtlRet" -> ctl' = -1 /\ U(<<joined, fl, mx, ta, tw, transferred, holder, insTh, insDepth, curFd, sentFd, pendIn, rFd, rOutFd, emFd, pendOut, curSink, sinkFd, pendEv, released, remoteFreed, handleDead, mgrFreed, deadIn, deadOut, appFrz>>)
+    [] ev.e = "FreezeRet" -> appFrz' = ev.ok /\ U(<<joined, fl, mx, ta, tw, transferred, holder, insTh, insDepth, curFd, sentFd, pendIn, rFd, rOutFd, emFd, pendOut, curSink, sinkFd, pendEv, released, remoteFreed, handleDead, mgrFreed, deadIn, deadOut, ctl>>)
+    [] ev.e = "Thaw" -> appFrz' = FALSE /\ U(<<joined, fl, mx, ta, tw, transferred, holder, insTh, insDepth, curFd, sentFd, pendIn, rFd, rOutFd, emFd, pendOut, curSink, sinkFd, pendEv, released, remoteFreed, handleDead, mgrFreed, deadIn, deadOut, ctl>>)
+    [] ev.e = "Lock" -> holder' = ev.th /\ U(<<joined, fl, mx, ta, tw, transferred, insTh, insDepth, curFd, sentFd, pendIn, rFd, rOutFd, emFd, pendOut, curSink, sinkFd, pendEv, released, remoteFreed, handleDead, mgrFreed, deadIn, deadOut, ctl, appFrz>>)
+    [] ev.e = "Unlock" -> holder' = -1 /\ U(<<joined, fl, mx, ta, tw, transferred, insTh, insDepth, curFd, sentFd, pendIn, rFd, rOutFd, emFd, pendOut, curSink, sinkFd, pendEv, released, remoteFreed, handleDead, mgrFreed, deadIn, deadOut, ctl, appFrz>>)
     [] ev.e = "REnter" ->
          /\ insTh' = ev.th /\ insDepth' = insDepth + 1
          /\ pendIn' = IF ev.k = "input" THEN Tail(pendIn) ELSE pendIn
          /\ rFd' = IF ev.k = "flowdef" THEN ev.f ELSE rFd
          /\ ctl' = IF ev.k = "control" THEN ctl + 1 ELSE ctl
          /\ remoteFreed' = (ev.k = "free")
-         /\ U(<<fl, mx, ta, tw, transferred, holder, curFd, sentFd, rOutFd, emFd, pendOut, curSink, sinkFd, pendEv, released, handleDead, mgrFreed, deadIn, deadOut, appFrz>>)
+         /\ U(<<joined, fl, mx, ta, tw, transferred, holder, curFd, sentFd, rOutFd, emFd, pendOut, curSink, sinkFd, pendEv, released, handleDead, mgrFreed, deadIn, deadOut, appFrz>>)
     [] ev.e = "RLeave" -> /\ insDepth' = insDepth - 1 /\ insTh' = IF insDepth = 1 THEN -1 ELSE insTh
-                          /\ U(<<fl, mx, ta, tw, transferred, holder, curFd, sentFd, pendIn, rFd, rOutFd, emFd, pendOut, curSink, sinkFd, pendEv, released, remoteFreed, handleDead, mgrFreed, deadIn, deadOut, ctl, appFrz>>)
-    [] ev.e = "RSetFd" -> rOutFd' = ev.f /\ U(<<fl, mx, ta, tw, transferred, holder, insTh, insDepth, curFd, sentFd, pendIn, rFd, emFd, pendOut, curSink, sinkFd, pendEv, released, remoteFreed, handleDead, mgrFreed, deadIn, deadOut, ctl, appFrz>>)
+                          /\ U(<<joined, fl, mx, ta, tw, transferred, holder, curFd, sentFd, pendIn, rFd, rOutFd, emFd, pendOut, curSink, sinkFd, pendEv, released, remoteFreed, handleDead, mgrFreed, deadIn, deadOut, ctl, appFrz>>)
+    [] ev.e = "RSetFd" -> rOutFd' = ev.f /\ U(<<joined, fl, mx, ta, tw, transferred, holder, insTh, insDepth, curFd, sentFd, pendIn, rFd, emFd, pendOut, curSink, sinkFd, pendEv, released, remoteFreed, handleDead, mgrFreed, deadIn, deadOut, ctl, appFrz>>)
     [] ev.e = "RSend" -> emFd' = Upd(emFd, ev.id, rOutFd) /\ pendOut' = Append(pendOut, ev.id)
-                         /\ U(<<fl, mx, ta, tw, transferred, holder, insTh, insDepth, curFd, sentFd, pendIn, rFd, rOutFd, curSink, sinkFd, pendEv, released, remoteFreed, handleDead, mgrFreed, deadIn, deadOut, ctl, appFrz>>)
-    [] ev.e = "Throw" -> pendEv' = Append(pendEv, ev.ev) /\ U(<<fl, mx, ta, tw, transferred, holder, insTh, insDepth, curFd, sentFd, pendIn, rFd, rOutFd, emFd, pendOut, curSink, sinkFd, released, remoteFreed, handleDead, mgrFreed, deadIn, deadOut, ctl, appFrz>>)
+                         /\ U(<<joined, fl, mx, ta, tw, transferred, holder, insTh, insDepth, curFd, sentFd, pendIn, rFd, rOutFd, curSink, sinkFd, pendEv, released, remoteFreed, handleDead, mgrFreed, deadIn, deadOut, ctl, appFrz>>)
+    [] ev.e = "Throw" -> pendEv' = Append(pendEv, ev.ev) /\ U(<<joined, fl, mx, ta, tw, transferred, holder, insTh, insDepth, curFd, sentFd, pendIn, rFd, rOutFd, emFd, pendOut, curSink, sinkFd, released, remoteFreed, handleDead, mgrFreed, deadIn, deadOut, ctl, appFrz>>)
     [] ev.e = "Forward" -> pendEv' = SubSeq(pendEv, Pos(ev.ev, pendEv) + 1, Len(pendEv))
-                           /\ U(<<fl, mx, ta, tw, transferred, holder, insTh, insDepth, curFd, sentFd, pendIn, rFd, rOutFd, emFd, pendOut, curSink, sinkFd, released, remoteFreed, handleDead, mgrFreed, deadIn, deadOut, ctl, appFrz>>)
-    [] ev.e = "OutFd" -> sinkFd' = [sinkFd EXCEPT ![ev.s] = ev.f] /\ U(<<fl, mx, ta, tw, transferred, holder, insTh, insDepth, curFd, sentFd, pendIn, rFd, rOutFd, emFd, pendOut, curSink, pendEv, released, remoteFreed, handleDead, mgrFreed, deadIn, deadOut, ctl, appFrz>>)
-    [] ev.e = "Out" -> pendOut' = Tail(pendOut) /\ U(<<fl, mx, ta, tw, transferred, holder, insTh, insDepth, curFd, sentFd, pendIn, rFd, rOutFd, emFd, curSink, sinkFd, pendEv, released, remoteFreed, handleDead, mgrFreed, deadIn, deadOut, ctl, appFrz>>)
+                           /\ U(<<joined, fl, mx, ta, tw, transferred, holder, insTh, insDepth, curFd, sentFd, pendIn, rFd, rOutFd, emFd, pendOut, curSink, sinkFd, released, remoteFreed, handleDead, mgrFreed, deadIn, deadOut, ctl, appFrz>>)
+    [] ev.e = "OutFd" -> sinkFd' = [sinkFd EXCEPT ![ev.s] = ev.f] /\ U(<<joined, fl, mx, ta, tw, transferred, holder, insTh, insDepth, curFd, sentFd, pendIn, rFd, rOutFd, emFd, pendOut, curSink, pendEv, released, remoteFreed, handleDead, mgrFreed, deadIn, deadOut, ctl, appFrz>>)
+    [] ev.e = "Out" -> pendOut' = Tail(pendOut) /\ U(<<joined, fl, mx, ta, tw, transferred, holder, insTh, insDepth, curFd, sentFd, pendIn, rFd, rOutFd, emFd, curSink, sinkFd, pendEv, released, remoteFreed, handleDead, mgrFreed, deadIn, deadOut, ctl, appFrz>>)
     [] ev.e = "Dead" -> /\ handleDead' = (handleDead \/ ev.p = "handle")
                         /\ deadIn' = (deadIn \/ ev.p = "in_qsrc")
                         /\ deadOut' = (deadOut \/ ev.p = "out_qsink")
-                        /\ U(<<fl, mx, ta, tw, transferred, holder, insTh, insDepth, curFd, sentFd, pendIn, rFd, rOutFd, emFd, pendOut, curSink, sinkFd, pendEv, released, remoteFreed, mgrFreed, ctl, appFrz>>)
-    [] ev.e = "MgrFree" -> mgrFreed' = TRUE /\ U(<<fl, mx, ta, tw, transferred, holder, insTh, insDepth, curFd, sentFd, pendIn, rFd, rOutFd, emFd, pendOut, curSink, sinkFd, pendEv, released, remoteFreed, handleDead, deadIn, deadOut, ctl, appFrz>>)
+                        /\ U(<<joined, fl, mx, ta, tw, transferred, holder, insTh, insDepth, curFd, sentFd, pendIn, rFd, rOutFd, emFd, pendOut, curSink, sinkFd, pendEv, released, remoteFreed, mgrFreed, ctl, appFrz>>)
+    [] ev.e = "Join" -> joined' = TRUE /\ U(<<fl, mx, ta, tw, transferred, holder, insTh, insDepth, curFd, sentFd, pendIn, rFd, rOutFd, emFd, pendOut, curSink, sinkFd, pendEv, released, remoteFreed, handleDead, mgrFreed, deadIn, deadOut, ctl, appFrz>>)
+    [] ev.e = "MgrFree" -> mgrFreed' = TRUE /\ U(<<joined, fl, mx, ta, tw, transferred, holder, insTh, insDepth, curFd, sentFd, pendIn, rFd, rOutFd, emFd, pendOut, curSink, sinkFd, pendEv, released, remoteFreed, handleDead, deadIn, deadOut, ctl, appFrz>>)
     [] OTHER -> UNCHANGED st
 
 \* a use after free does not stop the judgement of the rest of the execution
@@ -159,7 +170,7 @@ TStep ==
           /\ insTh' = -1 /\ insDepth' = 0 /\ curFd' = None /\ sentFd' = <<>> /\ pendIn' = <<>> /\ rFd' = None
           /\ rOutFd' = None /\ emFd' = <<>> /\ pendOut' = <<>> /\ curSink' = -1 /\ sinkFd' = [s \in {0, 1} |-> None]
           /\ pendEv' = <<>> /\ released' = FALSE /\ remoteFreed' = FALSE /\ handleDead' = FALSE /\ mgrFreed' = FALSE
-          /\ deadIn' = FALSE /\ deadOut' = FALSE /\ ctl' = -1 /\ appFrz' = FALSE
+          /\ deadIn' = FALSE /\ deadOut' = FALSE /\ ctl' = -1 /\ appFrz' = FALSE /\ joined' = FALSE
           /\ skip' = FALSE /\ cur' = ev.hid /\ bad' = bad
      ELSE IF skip THEN UNCHANGED <<st, skip, cur, bad>>
      ELSE IF Guard(ev) THEN Effect(ev) /\ UNCHANGED <<skip, cur, bad>>
@@ -169,7 +180,7 @@ TInit == /\ l = 1 /\ fl = "lin" /\ mx = 1 /\ ta = 0 /\ tw = 1 /\ transferred = F
          /\ insTh = -1 /\ insDepth = 0 /\ curFd = None /\ sentFd = <<>> /\ pendIn = <<>> /\ rFd = None
          /\ rOutFd = None /\ emFd = <<>> /\ pendOut = <<>> /\ curSink = -1 /\ sinkFd = [s \in {0, 1} |-> None]
          /\ pendEv = <<>> /\ released = FALSE /\ remoteFreed = FALSE /\ handleDead = FALSE /\ mgrFreed = FALSE
-         /\ deadIn = FALSE /\ deadOut = FALSE /\ ctl = -1 /\ appFrz = FALSE
+         /\ deadIn = FALSE /\ deadOut = FALSE /\ ctl = -1 /\ appFrz = FALSE /\ joined = FALSE
          /\ skip = FALSE /\ cur = 0 /\ bad = {}
 TSpec == TInit /\ [][TStep]_vars
 Report == (l = Len(Tr) + 1) => PrintT(<<"TRACE_BAD", bad>>)
